@@ -173,6 +173,7 @@ func GenPhysical(t *rapid.T, d *Deck) {
 	}
 	o.Minimal = rapid.IntRange(0, 3).Draw(t, "minimal") == 0
 	o.NoDocProps = rapid.IntRange(0, 3).Draw(t, "noDocProps") == 0
+	o.RIDFirst = rapid.IntRange(0, 3).Draw(t, "ridFirst") == 0
 }
 
 // GenDeck draws a complete deck of 1..maxSlides slides with ordinary words as
